@@ -282,14 +282,43 @@ func c06(c *core.Ctx) {
 	// (2) text attributes: every length up to the limit, and limit+1
 	for _, tk := range textKinds() {
 		tk := tk
-		c.Section("text-"+tk.name, int64(tk.limit+2), func(i int64, r *gen.Rand) {
+		c.Section("text-"+tk.name, int64(2*(tk.limit+2)), func(i int64, r *gen.Rand) {
 			c.Eval(1)
-			n := int(i)
+			n := int(i) % (tk.limit + 2)
+			second := int(i) >= tk.limit+2
 			v := r.Bytes(n)
 			m := new(stun.Message)
+			detail := map[string]interface{}{"attr": tk.name, "length": n}
+			if second {
+				// second pass over every length: content that means something to some STUN dialect (it is still just the
+				// value), in a message built in a caller-supplied buffer whose capacity ends inside or right at the
+				// attribute (pooled packet buffers are not multiples of 8)
+				word := c06Words[r.Intn(len(c06Words))]
+				switch r.Intn(3) {
+				case 0:
+					copy(v, word)
+				case 1:
+					if n >= len(word) {
+						copy(v[n-len(word):], word)
+					}
+				default:
+					for k := 0; k < n; k++ {
+						v[k] = word[k%len(word)]
+					}
+				}
+				capacity := 20 + 4 + n + r.Intn(5) - 1
+				if r.Chance(1, 4) {
+					capacity = 20 + r.Intn(4+n+8)
+				}
+				if capacity < 0 {
+					capacity = 0
+				}
+				m.Raw = make([]byte, 0, capacity)
+				detail["raw_capacity"] = capacity
+				detail["value_hex"] = core.Hex(v)
+			}
 			_ = m.Build(stun.BindingRequest, stun.NewTransactionIDSetter(r.TID()))
 			err := tk.set(m, v)
-			detail := map[string]interface{}{"attr": tk.name, "length": n}
 			if n > tk.limit {
 				if err == nil {
 					c.Violate("limit", "limit:"+tk.name, detail)
@@ -297,7 +326,7 @@ func c06(c *core.Ctx) {
 
 				return
 			}
-			c.Distinct(uint64(n) | uint64(tk.typ)<<32)
+			c.Distinct(uint64(n) | uint64(tk.typ)<<32 | uint64(i/int64(tk.limit+2))<<48)
 			if err != nil {
 				detail["err"] = err.Error()
 				c.Violate("setter-error", "setter-error:"+tk.name, detail)
@@ -379,9 +408,14 @@ func c06(c *core.Ctx) {
 	})
 	c.MarkExhaustive("error-codes")
 	// (4) UNKNOWN-ATTRIBUTES: lists of 0..64 types
-	c.Section("unknown-attributes", c.N(65*8, 65*5000), func(i int64, r *gen.Rand) {
+	c.Section("unknown-attributes", c.N(65*12, 65*5000), func(i int64, r *gen.Rand) {
 		c.Eval(1)
 		n := int(i % 65)
+		if i%65 == 64 {
+			// long lists too: the count is limited by the 16-bit length field only (2 bytes per entry)
+			long := []int{255, 256, 257, 4095, 4096, 8191, 8192, 16383, 16384, 16385, 20000, 32760}
+			n = long[int(i/65)%len(long)]
+		}
 		types := make([]uint16, n)
 		ua := make(stun.UnknownAttributes, n)
 		for k := range types {
@@ -435,6 +469,14 @@ func c06(c *core.Ctx) {
 			c.Violate("rfc-encoded-misread", "rfc-encoded-misread:UNKNOWN-ATTRIBUTES", detail)
 		}
 	})
+}
+
+// c06Words are byte strings that carry meaning in some STUN dialect or text convention; inside a text attribute they
+// are content like any other.
+var c06Words = [][]byte{ //nolint:gochecknoglobals
+	[]byte("obMatJos2AAAA"), []byte("obMatJos2"), []byte("obMatJos2////+"), []byte("\xef\xbb\xbf"), []byte("\x00"), []byte(" "), []byte("\""),
+	[]byte("\r\n"), []byte("stun:"), []byte("realm=\"x\""), []byte(":"), []byte("%00"), []byte("\\"), []byte("\xc0\x80"), []byte("\xff"),
+	[]byte("\t"), []byte("=?utf-8?"), []byte("\x21\x12\xa4\x42"), []byte("\x00\x00\x00\x00"), []byte("\x80\x28\x00\x04"),
 }
 
 func sameTypes(a stun.UnknownAttributes, b []uint16) bool {
